@@ -733,4 +733,310 @@ theorem catchAs_cls (r : PyM Val) : clsM (catchAs [.typeError] r) = catchTE (cls
   | ok v => rfl
   | error e => cases e <;> simp [catchAs, catches, clsM, catchTE]
 
+/-! ### the call log of the transpiled program when nothing goes wrong -/
+
+mutual
+/-- the call sites the TRANSPILED program reaches when nothing goes wrong: like `sites`, but both branches of `?:` -/
+def sitesE (cx : Ctx) (env : List Val) : Expr → Log
+  | .lit _ => []
+  | .var _ => []
+  | .call f args => sitesEs cx env args ++ callSite cx f (dens cx env args)
+  | .method recv f args =>
+      sitesE cx env recv ++ (sitesEs cx env args ++ callSite cx f (den cx env recv :: dens cx env args))
+  | .or a b => sitesE cx env a ++ sitesE cx env b
+  | .and a b => sitesE cx env a ++ sitesE cx env b
+  | .not a => sitesE cx env a
+  | .cond c x y => sitesE cx env c ++ (sitesE cx env x ++ sitesE cx env y)
+  | .add a b => sitesE cx env a ++ sitesE cx env b
+  | .lt a b => sitesE cx env a ++ sitesE cx env b
+  | .all src body => sitesE cx env src ++ (match den cx env src with
+      | .list vs => allSites (fun v => sitesE cx (v :: env) body) vs
+      | _ => [])
+  | .exists_ src body => sitesE cx env src ++ (match den cx env src with
+      | .list vs => allSites (fun v => sitesE cx (v :: env) body) vs
+      | _ => [])
+  | .map src body => sitesE cx env src ++ (match den cx env src with
+      | .list vs => allSites (fun v => sitesE cx (v :: env) body) vs
+      | _ => [])
+def sitesEs (cx : Ctx) (env : List Val) : List Expr → Log
+  | [] => []
+  | e :: es => sitesE cx env e ++ sitesEs cx env es
+end
+
+mutual
+/-- an evaluation in which no sub-expression — also none in a branch that `?:` does not select — is an error, and
+macro bodies have the expected type -/
+def Quiet (cx : Ctx) (env : List Val) : Expr → Prop
+  | .lit v => v.isErr = false
+  | .var i => ∃ v, env[i]? = some v ∧ v.isErr = false
+  | .call f args => Quiets cx env args ∧ (den cx env (.call f args)).isErr = false
+  | .method recv f args =>
+      Quiet cx env recv ∧ Quiets cx env args ∧ (den cx env (.method recv f args)).isErr = false
+  | .or a b => Quiet cx env a ∧ Quiet cx env b ∧ (den cx env (.or a b)).isErr = false
+  | .and a b => Quiet cx env a ∧ Quiet cx env b ∧ (den cx env (.and a b)).isErr = false
+  | .not a => Quiet cx env a ∧ (den cx env (.not a)).isErr = false
+  | .cond c x y => Quiet cx env c ∧ Quiet cx env x ∧ Quiet cx env y ∧ (den cx env c).isBool = true
+  | .add a b => Quiet cx env a ∧ Quiet cx env b ∧ (den cx env (.add a b)).isErr = false
+  | .lt a b => Quiet cx env a ∧ Quiet cx env b ∧ (den cx env (.lt a b)).isErr = false
+  | .all src body => Quiet cx env src ∧ ∃ vs, den cx env src = .list vs ∧ ∀ v ∈ vs,
+      Quiet cx (v :: env) body ∧ (den cx (v :: env) body).isBool = true
+  | .exists_ src body => Quiet cx env src ∧ ∃ vs, den cx env src = .list vs ∧ ∀ v ∈ vs,
+      Quiet cx (v :: env) body ∧ (den cx (v :: env) body).isBool = true
+  | .map src body => Quiet cx env src ∧ ∃ vs, den cx env src = .list vs ∧ ∀ v ∈ vs, Quiet cx (v :: env) body
+def Quiets (cx : Ctx) (env : List Val) : List Expr → Prop
+  | [] => True
+  | e :: es => Quiet cx env e ∧ Quiets cx env es
+end
+
+theorem total_ne_err {cs : List Exc} {r : PyM Val} (h : (total (catchAs cs r)).isErr = false) :
+    r = .ok (total (catchAs cs r)) := by
+  cases r with
+  | ok v => rfl
+  | error e =>
+    exfalso
+    by_cases hc : catches cs e = true <;> simp [catchAs, hc, total, Val.isErr] at h
+
+theorem resultC_ok (cx : Ctx) (v : Val) (l : Log) : resultC cx (.ok v, l) = (.ok v, l) := rfl
+
+theorem foldBody_mem (body : Val → Out Val) (d : Val → Val) (s : Val → Log) (op : Val → Val → PyM Val)
+    (opT : Val → Val → Val) (hop : ∀ a b, op a b = .ok (opT a b)) :
+    ∀ (vs : List Val) (acc : Val), (∀ v ∈ vs, body v = (.ok (d v), s v)) →
+      foldBody body op acc vs = (.ok (foldV d opT acc vs), allSites s vs)
+  | [], acc, _ => rfl
+  | v :: vs, acc, h => by
+      simp only [foldBody, h v (by simp), Out.bind_ok, liftP, hop acc (d v), foldV, allSites, List.nil_append]
+      rw [foldBody_mem body d s op opT hop vs _ (fun w hw => h w (by simp [hw]))]
+
+theorem mapBodyC_mem (body : Val → Out Val) (d : Val → Val) (s : Val → Log) :
+    ∀ (vs : List Val), (∀ v ∈ vs, body v = (.ok (d v), s v)) →
+      mapBodyC body vs = (.ok (vs.map d), allSites s vs)
+  | [], _ => rfl
+  | v :: vs, h => by
+      simp only [mapBodyC, h v (by simp), Out.bind_ok,
+        mapBodyC_mem body d s vs (fun w hw => h w (by simp [hw])), Out.pure, List.map, allSites, List.append_nil]
+
+theorem firstErr_false_of_dens : ∀ (vs : List Val), (∀ v ∈ vs, v.isErr = false) → firstErr vs = false
+  | [], _ => rfl
+  | v :: vs, h => by simp [firstErr, h v (by simp), firstErr_false_of_dens vs (fun w hw => h w (by simp [hw]))]
+
+/-- a quiet call: bound, applied, returns a value -/
+theorem callC_quiet {cx : Ctx} (f : String) (vs : List Val) (hq : (denCall cx f vs).isErr = false) :
+    callC cx f vs = (.ok (denCall cx f vs), callSite cx f vs) := by
+  unfold denCall callC callSite at *
+  cases hf : cx.fns f with
+  | none => simp [hf, Val.isErr] at hq
+  | some fn =>
+    simp only [hf] at hq
+    by_cases he : firstErr vs = true
+    · simp [he, Val.isErr] at hq
+    · simp only [he] at hq ⊢
+      have : applyC fn.fn vs = .ok (applyV fn.fn vs) := by
+        unfold applyC; unfold applyV at hq
+        cases hr : fn.fn vs with
+        | ret w => simp [applyV, hr]
+        | raise e => simp [hr, Val.isErr] at hq
+      by_cases hd : fn.direct = true <;> simp [hd, this]
+
+theorem foldV_bool (d : Val → Val) (opT : Val → Val → Val)
+    (hop : ∀ a b, a.isBool = true → b.isBool = true → (opT a b).isBool = true) :
+    ∀ (vs : List Val) (acc : Val), acc.isBool = true → (∀ v ∈ vs, (d v).isBool = true) → (foldV d opT acc vs).isBool = true
+  | [], acc, ha, _ => ha
+  | v :: vs, acc, ha, h => by
+      simp only [foldV]
+      exact foldV_bool d opT hop vs _ (hop _ _ ha (h v (by simp))) (fun w hw => h w (by simp [hw]))
+
+theorem andT_bool {a b : Val} (ha : a.isBool = true) (hb : b.isBool = true) : (andT a b).isBool = true := by
+  cases a <;> cases b <;> simp_all [Val.isBool] <;> rfl
+theorem orT_bool {a b : Val} (ha : a.isBool = true) (hb : b.isBool = true) : (orT a b).isBool = true := by
+  cases a <;> cases b <;> simp_all [Val.isBool] <;> rfl
+
+theorem boolTypeOf_bool {r : Val} (h : r.isBool = true) : boolTypeOf r = .ok r := by
+  cases r <;> simp_all [Val.isBool, boolTypeOf]
+
+theorem isErr_false_of_isBool {v : Val} (h : v.isBool = true) : v.isErr = false := by
+  cases v <;> simp_all [Val.isBool, Val.isErr]
+
+theorem quiet_not_err {cx : Ctx} : ∀ (e : Expr) (env : List Val), Quiet cx env e → (den cx env e).isErr = false
+  | .lit v, env, h => h
+  | .var i, env, ⟨v, hv, hne⟩ => by simp [den, hv, hne]
+  | .call f args, env, h => h.2
+  | .method recv f args, env, h => h.2.2
+  | .or a b, env, h => h.2.2
+  | .and a b, env, h => h.2.2
+  | .not a, env, h => h.2
+  | .cond c x y, env, ⟨_, hx, hy, hb⟩ => by
+      have h1 := quiet_not_err x env hx
+      have h2 := quiet_not_err y env hy
+      simp only [den]
+      cases hv : den cx env c with
+      | bool b => cases b <;> simp [Val.truthy, condT, condV, catchAs, total, h1, h2]
+      | int n => simp [hv, Val.isBool] at hb
+      | list xs => simp [hv, Val.isBool] at hb
+      | err => simp [hv, Val.isBool] at hb
+  | .add a b, env, h => h.2.2
+  | .lt a b, env, h => h.2.2
+  | .all src body, env, ⟨_, vs, hvs, hb⟩ => by
+      simp only [den, hvs]
+      exact isErr_false_of_isBool (foldV_bool _ andT (fun a b => andT_bool) vs _ rfl (fun v hv => (hb v hv).2))
+  | .exists_ src body, env, ⟨_, vs, hvs, hb⟩ => by
+      simp only [den, hvs]
+      exact isErr_false_of_isBool (foldV_bool _ orT (fun a b => orT_bool) vs _ rfl (fun v hv => (hb v hv).2))
+  | .map src body, env, ⟨_, vs, hvs, hb⟩ => by
+      simp only [den, hvs]
+      rw [mapV_noerr _ vs (fun v hv => quiet_not_err body (v :: env) (hb v hv))]
+      rfl
+
+mutual
+theorem evalC_quiet {cx : Ctx} : ∀ (e : Expr) (env : List Val), Quiet cx env e →
+    evalC cx env e = (.ok (den cx env e), sitesE cx env e)
+  | .lit v, env, _ => rfl
+  | .var i, env, ⟨v, hv, _⟩ => by simp [evalC, den, sitesE, hv, Out.pure]
+  | .call f args, env, ⟨ha, hq⟩ => by
+      simp only [evalC, evalCs_quiet args env ha, Out.bind_ok, den, sitesE]
+      simp only [den] at hq
+      rw [callC_quiet f _ hq]
+  | .method recv f args, env, ⟨hr, ha, hq⟩ => by
+      simp only [evalC, evalC_quiet recv env hr, evalCs_quiet args env ha, Out.bind_ok, den, sitesE]
+      simp only [den] at hq
+      rw [callC_quiet f _ hq]
+  | .or a b, env, ⟨ha, hb, hq⟩ => by
+      simp only [den, orT] at hq
+      simp only [evalC, evalC_quiet a env ha, evalC_quiet b env hb, resultC_ok, Out.bind_ok, den, sitesE, liftP, orT]
+      rw [← total_ne_err hq]; simp
+  | .and a b, env, ⟨ha, hb, hq⟩ => by
+      simp only [den, andT] at hq
+      simp only [evalC, evalC_quiet a env ha, evalC_quiet b env hb, resultC_ok, Out.bind_ok, den, sitesE, liftP, andT]
+      rw [← total_ne_err hq]; simp
+  | .not a, env, ⟨ha, hq⟩ => by
+      simp only [den, notT] at hq
+      simp only [evalC, evalC_quiet a env ha, Out.bind_ok, den, sitesE, liftP, notT]
+      rw [← total_ne_err hq]; simp
+  | .cond c x y, env, ⟨hc, hx, hy, hb⟩ => by
+      simp only [evalC, evalC_quiet c env hc, evalC_quiet x env hx, evalC_quiet y env hy, resultC_ok, Out.bind_ok,
+        den, sitesE, liftP]
+      cases hv : den cx env c with
+      | bool b => cases b <;> simp [condV, Val.truthy, condT, catchAs, total, List.append_assoc]
+      | int n => simp [hv, Val.isBool] at hb
+      | list xs => simp [hv, Val.isBool] at hb
+      | err => simp [hv, Val.isBool] at hb
+  | .add a b, env, ⟨ha, hb, hq⟩ => by
+      simp only [den, addT] at hq
+      simp only [evalC, evalC_quiet a env ha, evalC_quiet b env hb, Out.bind_ok, den, sitesE, liftP, addT]
+      rw [← total_ne_err hq]; simp
+  | .lt a b, env, ⟨ha, hb, hq⟩ => by
+      simp only [den, ltT] at hq
+      simp only [evalC, evalC_quiet a env ha, evalC_quiet b env hb, Out.bind_ok, den, sitesE, liftP, ltT]
+      rw [← total_ne_err hq]; simp
+  | .all src body, env, ⟨hs, vs, hvs, hb⟩ => by
+      simp only [evalC, evalC_quiet src env hs, Out.bind_ok, den, sitesE, hvs]
+      have hbody : ∀ v ∈ vs, resultC cx (evalC cx (v :: env) body) =
+          (.ok (den cx (v :: env) body), sitesE cx (v :: env) body) :=
+        fun v hv => by rw [evalC_quiet body (v :: env) (hb v hv).1]; rfl
+      rw [foldBody_mem _ _ _ andE andT andE_ok vs _ hbody]
+      simp only [Out.bind_ok, liftP]
+      rw [boolTypeOf_bool (foldV_bool _ andT (fun a b => andT_bool) vs _ rfl (fun v hv => (hb v hv).2))]
+      simp
+  | .exists_ src body, env, ⟨hs, vs, hvs, hb⟩ => by
+      simp only [evalC, evalC_quiet src env hs, Out.bind_ok, den, sitesE, hvs]
+      have hbody : ∀ v ∈ vs, resultC cx (evalC cx (v :: env) body) =
+          (.ok (den cx (v :: env) body), sitesE cx (v :: env) body) :=
+        fun v hv => by rw [evalC_quiet body (v :: env) (hb v hv).1]; rfl
+      rw [foldBody_mem _ _ _ orE orT orE_ok vs _ hbody]
+      simp only [Out.bind_ok, liftP]
+      rw [boolTypeOf_bool (foldV_bool _ orT (fun a b => orT_bool) vs _ rfl (fun v hv => (hb v hv).2))]
+      simp
+  | .map src body, env, ⟨hs, vs, hvs, hb⟩ => by
+      simp only [evalC, evalC_quiet src env hs, Out.bind_ok, den, sitesE, hvs]
+      have hbody : ∀ v ∈ vs, evalC cx (v :: env) body = (.ok (den cx (v :: env) body), sitesE cx (v :: env) body) :=
+        fun v hv => evalC_quiet body (v :: env) (hb v hv)
+      rw [mapBodyC_mem _ _ _ vs hbody, mapV_noerr _ vs (fun v hv => quiet_not_err body (v :: env) (hb v hv))]
+      simp [Out.pure]
+theorem evalCs_quiet {cx : Ctx} : ∀ (es : List Expr) (env : List Val), Quiets cx env es →
+    evalCs cx env es = (.ok (dens cx env es), sitesEs cx env es)
+  | [], env, _ => rfl
+  | e :: es, env, ⟨h1, h2⟩ => by
+      simp only [evalCs, dens, sitesEs, evalC_quiet e env h1, evalCs_quiet es env h2, Out.bind_ok, Out.pure,
+        List.append_nil]
+end
+
+mutual
+/-- no `?:` anywhere in the expression -/
+def noCond : Expr → Bool
+  | .lit _ => true
+  | .var _ => true
+  | .call _ args => noConds args
+  | .method recv _ args => noCond recv && noConds args
+  | .or a b => noCond a && noCond b
+  | .and a b => noCond a && noCond b
+  | .not a => noCond a
+  | .cond _ _ _ => false
+  | .add a b => noCond a && noCond b
+  | .lt a b => noCond a && noCond b
+  | .all src body => noCond src && noCond body
+  | .exists_ src body => noCond src && noCond body
+  | .map src body => noCond src && noCond body
+def noConds : List Expr → Bool
+  | [] => true
+  | e :: es => noCond e && noConds es
+end
+
+theorem allSites_congr (s s' : Val → Log) : ∀ (vs : List Val), (∀ v ∈ vs, s v = s' v) → allSites s vs = allSites s' vs
+  | [], _ => rfl
+  | v :: vs, h => by
+      simp only [allSites, h v (by simp), allSites_congr s s' vs (fun w hw => h w (by simp [hw]))]
+
+theorem mapSites_noerr (d : Val → Val) (s : Val → Log) : ∀ (vs : List Val), (∀ v ∈ vs, (d v).isErr = false) →
+    mapSites d s vs = allSites s vs
+  | [], _ => rfl
+  | v :: vs, h => by
+      simp [mapSites, allSites, h v (by simp), mapSites_noerr d s vs (fun w hw => h w (by simp [hw]))]
+
+mutual
+theorem sitesE_eq_sites {cx : Ctx} : ∀ (e : Expr) (env : List Val), Quiet cx env e → noCond e = true →
+    sitesE cx env e = sites cx env e
+  | .lit _, _, _, _ => rfl
+  | .var _, _, _, _ => rfl
+  | .call f args, env, hq, hn => by
+      simp only [noCond] at hn
+      simp only [sitesE, sites, sitesEs_eq_sitess args env hq.1 hn]
+  | .method recv f args, env, hq, hn => by
+      simp only [noCond, Bool.and_eq_true] at hn
+      simp only [sitesE, sites, sitesE_eq_sites recv env hq.1 hn.1, sitesEs_eq_sitess args env hq.2.1 hn.2]
+  | .or a b, env, hq, hn => by
+      simp only [noCond, Bool.and_eq_true] at hn
+      simp only [sitesE, sites, sitesE_eq_sites a env hq.1 hn.1, sitesE_eq_sites b env hq.2.1 hn.2]
+  | .and a b, env, hq, hn => by
+      simp only [noCond, Bool.and_eq_true] at hn
+      simp only [sitesE, sites, sitesE_eq_sites a env hq.1 hn.1, sitesE_eq_sites b env hq.2.1 hn.2]
+  | .not a, env, hq, hn => by
+      simp only [noCond] at hn
+      simp only [sitesE, sites, sitesE_eq_sites a env hq.1 hn]
+  | .cond _ _ _, _, _, hn => by simp [noCond] at hn
+  | .add a b, env, hq, hn => by
+      simp only [noCond, Bool.and_eq_true] at hn
+      simp only [sitesE, sites, sitesE_eq_sites a env hq.1 hn.1, sitesE_eq_sites b env hq.2.1 hn.2]
+  | .lt a b, env, hq, hn => by
+      simp only [noCond, Bool.and_eq_true] at hn
+      simp only [sitesE, sites, sitesE_eq_sites a env hq.1 hn.1, sitesE_eq_sites b env hq.2.1 hn.2]
+  | .all src body, env, ⟨hs, vs, hvs, hb⟩, hn => by
+      simp only [noCond, Bool.and_eq_true] at hn
+      simp only [sitesE, sites, sitesE_eq_sites src env hs hn.1, hvs]
+      rw [allSites_congr _ _ vs (fun v hv => sitesE_eq_sites body (v :: env) (hb v hv).1 hn.2)]
+  | .exists_ src body, env, ⟨hs, vs, hvs, hb⟩, hn => by
+      simp only [noCond, Bool.and_eq_true] at hn
+      simp only [sitesE, sites, sitesE_eq_sites src env hs hn.1, hvs]
+      rw [allSites_congr _ _ vs (fun v hv => sitesE_eq_sites body (v :: env) (hb v hv).1 hn.2)]
+  | .map src body, env, ⟨hs, vs, hvs, hb⟩, hn => by
+      simp only [noCond, Bool.and_eq_true] at hn
+      simp only [sitesE, sites, sitesE_eq_sites src env hs hn.1, hvs]
+      rw [allSites_congr _ _ vs (fun v hv => sitesE_eq_sites body (v :: env) (hb v hv) hn.2),
+        mapSites_noerr _ _ vs (fun v hv => quiet_not_err body (v :: env) (hb v hv))]
+theorem sitesEs_eq_sitess {cx : Ctx} : ∀ (es : List Expr) (env : List Val), Quiets cx env es → noConds es = true →
+    sitesEs cx env es = sitess cx env es
+  | [], _, _, _ => rfl
+  | e :: es, env, hq, hn => by
+      simp only [noConds, Bool.and_eq_true] at hn
+      simp only [sitesEs, sitess, sitesE_eq_sites e env hq.1 hn.1, sitesEs_eq_sitess es env hq.2 hn.2]
+end
+
 end Cel.Funcs
